@@ -130,7 +130,10 @@ fn run(case: &Sx) -> Sx {
             let input = if kind == 0 {
                 Input::str(text)
             } else {
-                let p = std::env::temp_dir().join(format!("ergv-diag-{}-{}.er", std::process::id(), case.to_text().len()));
+                // a fresh name per case: the VFS caches file contents by path
+                static N: std::sync::atomic::AtomicUsize = std::sync::atomic::AtomicUsize::new(0);
+                let n = N.fetch_add(1, std::sync::atomic::Ordering::SeqCst);
+                let p = std::env::temp_dir().join(format!("ergv-diag-{}-{}.er", std::process::id(), n));
                 std::fs::write(&p, text.as_bytes()).unwrap();
                 tmp = Some(p.clone());
                 Input::file(p)
